@@ -74,6 +74,29 @@ func runC02(c *Ctx) {
 		}
 		ops = append(ops, TOp{Sess: y, Kind: tCancel, Mode: g.Pick("kill", "kill", "killnowait", "skip", "")})
 	}
+	// In another quarter a scripted epilogue for the caller's side: a caller with a tiny queue
+	// stops reading, has its queue filled with events, calls (with a router-side time-out) an
+	// echoing callee - whose RESULT then cannot be queued and is held back - and reads again a
+	// few seconds later, possibly after the time-out value has passed: the callee answered in
+	// time, so the RESULT is what the caller must find (the obligation below demands it).
+	blockedCaller, echoCallee := -1, -1
+	if blockedCallee < 0 && g.Chance(1, 3) {
+		x := g.Intn(ns)
+		y := (x + 1 + g.Intn(ns-1)) % ns
+		blockedCaller, echoCallee = y, x
+		t0 := time.Duration(g.Range(20, 60)) * time.Second
+		at := func(s int, d time.Duration) TOp { return TOp{Sess: s, Kind: tSleep, Until: t0 + d} }
+		ops = append(ops,
+			at(x, 0), TOp{Sess: x, Kind: tResume}, TOp{Sess: x, Kind: tReg, URI: "p.echo", WaitAck: true},
+			at(y, 0), TOp{Sess: y, Kind: tResume}, TOp{Sess: y, Kind: tSub, URI: "t.fill2", WaitAck: true},
+			at(y, time.Second), TOp{Sess: y, Kind: tStall},
+			at(x, 2*time.Second))
+		for i := 0; i < 5; i++ {
+			ops = append(ops, TOp{Sess: x, Kind: tPub, URI: "t.fill2", Opts: wamp.Dict{}})
+		}
+		ops = append(ops, at(y, 3*time.Second), TOp{Sess: y, Kind: tCall, URI: "p.echo", Opts: wamp.Dict{"timeout": []int{1000, 4000, 100000}[g.Intn(3)]}},
+			at(y, 3*time.Second+time.Duration([]int{2, 6, 20}[g.Intn(3)])*time.Second), TOp{Sess: y, Kind: tResume})
+	}
 	c.Res.NOps = len(ops)
 	c.Res.Sample = opsSample(ops, c, 0, 30)
 	c.Res.Shape = fmt.Sprintf("%x", hashStr(c.Res.Sample)^c.Spec.SchedSeed)
@@ -87,13 +110,16 @@ func runC02(c *Ctx) {
 		}
 		// small queues make "the caller cannot take the RESULT right now" reachable
 		qsize := []int{64, 64, 8, 2}[g.Intn(4)]
-		if i == blockedCallee {
+		if i == blockedCallee || i == blockedCaller {
 			qsize = g.Range(1, 3)
 		}
 		s := NewAnySess(c, w, g, fmt.Sprintf("s%d", i), "r1", qsize, hello)
 		cl := NewTClient(s, behs[g.Intn(len(behs))], time.Duration([]int{1, 50, 2000, 40000}[g.Intn(4)])*time.Millisecond)
 		if i == blockedCallee {
 			cl.Beh = BehIgnore
+		}
+		if i == echoCallee {
+			cl.Beh = BehEcho
 		}
 		if !s.Join() {
 			c.Res.Tooling = "traffic session could not join"
